@@ -485,7 +485,7 @@ func torrentDir(w io.Writer, hash hash.Hash, pth path.Path, lastdir path.Path) {
 
 func torrentEntry(ctx context.Context, w http.ResponseWriter, t *tor.Torrent, dir path.Path) error {
 	hash := t.Hash
-	name := t.Name
+	name := html.EscapeString(t.Name)
 	if !t.InfoComplete() {
 		if name != "" {
 			name = name + " "
@@ -679,12 +679,13 @@ func peers(w http.ResponseWriter, r *http.Request, t *tor.Torrent) {
 				state := ""
 				st, err := tt.GetState()
 				if st == tracker.Error && err != nil {
-					state = fmt.Sprintf("(%v)", err)
+					state = fmt.Sprintf("(%v)",
+						html.EscapeString(err.Error()))
 				} else if st != tracker.Idle {
 					state = fmt.Sprintf("(%v)", st.String())
 				}
 				fmt.Fprintf(w, "<tr><td>%v</td><td>%v</td></tr>\n",
-					tt.URL(), state)
+					html.EscapeString(tt.URL()), state)
 			}
 			if i+1 < len(trackers) {
 				fmt.Fprintf(w, "<tr></tr>\n")
@@ -703,7 +704,7 @@ func peers(w http.ResponseWriter, r *http.Request, t *tor.Torrent) {
 				cnt = fmt.Sprintf("%v", count)
 			}
 			fmt.Fprintf(w, "<tr><td>%v</td><td>%v</td><td>%.0f</td>",
-				ws.URL(), cnt, ws.Rate())
+				html.EscapeString(ws.URL()), cnt, ws.Rate())
 		}
 		fmt.Fprintf(w, "</table></p>\n")
 	}
@@ -914,8 +915,9 @@ func torfile(w http.ResponseWriter, r *http.Request, t *tor.Torrent) {
 }
 
 func m3uentry(w http.ResponseWriter, host string, hash hash.Hash, path path.Path) {
-	fmt.Fprintf(w, "#EXTINF:-1,%v\n",
-		strings.Replace(path[len(path)-1], ",", "", -1))
+	title := strings.NewReplacer(",", "", "\r", "", "\n", "").
+		Replace(path[len(path)-1])
+	fmt.Fprintf(w, "#EXTINF:-1,%v\n", title)
 	fmt.Fprintf(w, "http://%v/%v/%v\n",
 		host, hash, pathUrl(path))
 }
